@@ -153,7 +153,7 @@ def _qcow2(rng, ctx, c, cnt, sample, res, with_snaps=False):
     for i in range(nsnap):
         views.append(wq.make_view(rng, size=size, cluster_bits=cb, kinds=[rng.choice("NU") for _ in range(ncl)], extl2=False, tag=rng.getrandbits(40)))
         extra_size = rng.choice([0, 16, 16, 24, 24, 32, 40, 48, 61])
-        metas.append({"id": _text(rng, rng.randrange(1, 14), "0123456789ab").encode(), "name": _text(rng, rng.randrange(0, 40)).encode(),
+        metas.append({"id": _text(rng, rng.randrange(1, 14), rng.choice(["0123456789ab", "0123456789ab", "12snäp日😀-"])).encode(), "name": _text(rng, rng.randrange(0, 40)).encode(),
                       "extra_size": extra_size, "disk_size": rng.getrandbits(63), "vm_state_large": rng.getrandbits(64), "icount": rng.getrandbits(64),
                       "date_sec": rng.getrandbits(32), "date_nsec": rng.getrandbits(30), "vm_clock": rng.getrandbits(64), "vm_state_size": rng.getrandbits(32),
                       "extra_tail": bytes(rng.randrange(256) for _ in range(max(0, extra_size - 24)))})
